@@ -9,7 +9,10 @@ package main
 
 import (
 	"fmt"
+	"go/constant"
 	"go/token"
+	"go/types"
+	"sort"
 	"strings"
 
 	"golang.org/x/tools/go/ssa"
@@ -50,6 +53,7 @@ func runC07(c *Ctx) {
 	c07R2GC(c)
 	c07R2IndexWrapper(c)
 	c07R2IndexAll(c)
+	c07R2Algorithms(c)
 	c07R3(c)
 	c07R4(c)
 }
@@ -1289,6 +1293,7 @@ var c07Mutants = []Mutant{
 	{Name: "gc-rebuilt-graph-not-installed", File: "content/oci/oci.go", Old: "\ts.tagResolver = tagResolver\n\ts.graph = graph\n", New: "\ts.tagResolver = tagResolver\n", Expect: "C07.R2.every-push-indexed|(*~/content/oci.Store).gcIndex|rebuilt-graph-installed"},
 	{Name: "indexall-swallows-every-error", File: "internal/graph/memory.go", Old: "\t\t\tif errors.Is(err, errdef.ErrNotFound) {", New: "\t\t\tif errors.Is(err, errdef.ErrNotFound) || err != nil {", Expect: "C07.R2.every-push-indexed|(*~/internal/graph.Memory).IndexAll$1|skips-only-not-found"},
 	{Name: "indexall-no-descent-for-single-successor", File: "internal/graph/memory.go", Old: "\t\tif len(successors) > 0 {", New: "\t\tif len(successors) > 1 {", Expect: "C07.R2.every-push-indexed|(*~/internal/graph.Memory).IndexAll$1|descends-into-all-successors"},
+	{Name: "gc-filter-forgets-sha384", File: "content/oci/oci.go", Old: "\tcase digest.SHA256, digest.SHA512, digest.SHA384:", New: "\tcase digest.SHA256, digest.SHA512:", Expect: "C07.R2.every-push-indexed|~/content/oci.isKnownAlgorithm|gc-knows-every-digest-algorithm"},
 	{Name: "index-wrapper-skips-leaf-kinds", File: "internal/graph/memory.go", Old: "\t_, err := m.index(ctx, fetcher, node)\n\treturn err", New: "\tif node.MediaType == \"\" {\n\t\treturn nil\n\t}\n\t_, err := m.index(ctx, fetcher, node)\n\treturn err", Expect: "C07.R2.every-push-indexed|(*~/internal/graph.Memory).Index|delegates-to-index-step"},
 	// R3
 	{Name: "ismanifest-forgets-docker-manifest-list", File: "internal/descriptor/descriptor.go", Old: "\tcase docker.MediaTypeManifest,\n\t\tdocker.MediaTypeManifestList,\n", New: "\tcase docker.MediaTypeManifest,\n", Expect: "C07.R3.edge-bearing-kinds-persisted"},
@@ -1296,4 +1301,68 @@ var c07Mutants = []Mutant{
 	{Name: "graph-index-under-read-lock", File: "internal/graph/memory.go", Old: "\tm.lock.Lock()\n\tdefer m.lock.Unlock()\n\n\t// index the node", New: "\tm.lock.RLock()\n\tdefer m.lock.RUnlock()\n\n\t// index the node", Expect: "C07.R4.lock-discipline|(*~/internal/graph.Memory).index|"},
 	{Name: "oci-predecessors-without-store-lock", File: "content/oci/oci.go", Old: "\ts.sync.RLock()\n\tdefer s.sync.RUnlock()\n\n\treturn s.graph.Predecessors(ctx, node)", New: "\treturn s.graph.Predecessors(ctx, node)", Expect: "C07.R4.lock-discipline|(*~/content/oci.Store).Predecessors|"},
 	{Name: "graph-predecessors-without-lock", File: "internal/graph/memory.go", Old: "\tm.lock.RLock()\n\tdefer m.lock.RUnlock()\n\n\tkey := descriptor.FromOCI(node)", New: "\tkey := descriptor.FromOCI(node)", Expect: "C07.R4.lock-discipline|(*~/internal/graph.Memory).Predecessors|"},
+}
+
+// c07R2Algorithms: GC forgets every untagged manifest in the rebuilt graph and
+// then sweeps blobs/<alg>/ for the algorithms its filter knows; a supported
+// algorithm missing from the filter leaves manifests stored (Exists/Fetch
+// succeed) that the graph no longer knows: Predecessors omits them for good.
+// Necessary condition: the algorithm filter of the OCI store names every
+// digest algorithm constant go-digest declares (what Digest.Validate accepts).
+func c07R2Algorithms(c *Ctx) {
+	const R = "C07.R2.every-push-indexed"
+	dp := c.P.TypesPkg("github.com/opencontainers/go-digest")
+	if dp == nil {
+		c.LostAnchor(R, "github.com/opencontainers/go-digest")
+		return
+	}
+	var want []string
+	for _, name := range dp.Scope().Names() {
+		k, ok := dp.Scope().Lookup(name).(*types.Const)
+		if !ok {
+			continue
+		}
+		if n, isN := k.Type().(*types.Named); isN && n.Obj().Name() == "Algorithm" && k.Val().Kind() == constant.String {
+			want = append(want, constant.StringVal(k.Val()))
+		}
+	}
+	sort.Strings(want)
+	uniq := want[:0]
+	for i, w := range want {
+		if i == 0 || w != want[i-1] {
+			uniq = append(uniq, w)
+		}
+	}
+	want = uniq
+	isAlg := func(v ssa.Value) bool {
+		n, ok := v.Type().(*types.Named)
+		return ok && n.Obj().Name() == "Algorithm" && n.Obj().Pkg() != nil && n.Obj().Pkg() == dp
+	}
+	n := 0
+	for _, f := range c.P.FuncsOfPkg("content/oci") {
+		if f.Signature.Results().Len() != 1 || !types.Identical(f.Signature.Results().At(0).Type(), types.Typ[types.Bool]) {
+			continue
+		}
+		got := StringConstsComparedWith(f, isAlg)
+		if len(got) == 0 {
+			continue
+		}
+		n++
+		missing := ""
+		have := map[string]bool{}
+		for _, g := range got {
+			have[g] = true
+		}
+		for _, w := range want {
+			if !have[w] {
+				missing += " " + w
+			}
+		}
+		c.Check(R, FnName(f)+"|gc-knows-every-digest-algorithm", f.Pos(), missing == "" && len(want) > 0,
+			ifelse(missing == "", fmt.Sprintf("the algorithm filter accepts every algorithm go-digest declares %v", want),
+				"the algorithm filter used by GC's sweep lacks"+missing+": blobs under that algorithm survive GC while the rebuilt graph has forgotten them — Predecessors permanently omits those manifests"))
+	}
+	if n == 0 {
+		c.OK(R, "~/content/oci|gc-knows-every-digest-algorithm", token.NoPos, "the OCI store has no algorithm filter (every directory is swept or none)")
+	}
 }
